@@ -58,6 +58,9 @@ pub fn mod_socket(io: &IoData, is_read: bool) -> io::Result<()> {
 
 #[inline]
 fn del_socket(io: &IoData) {
+    // the deregistration is a system call on a descriptor *number*: a step of its own for the engine
+    #[cfg(may_verif)]
+    crate::verif::point(crate::verif::Op::PlainWrite, io.fd as usize);
     // transfer the io to the selector
     get_scheduler().get_selector().del_fd(io);
 }
